@@ -43,7 +43,8 @@ if mods:
                          'LbzVerif.Props.C12.expand_step_annotated_partial',
                          'LbzVerif.Props.C12.expand_step_annotated',
                          'LbzVerif.Props.C12.expand_footprint_thread',
-                         'LbzVerif.Props.C12.expand_race_free_sections'])
+                         'LbzVerif.Props.C12.expand_race_free_sections',
+                         'LbzVerif.Props.C12.expand_changes_under_lock'])
 sys.path.insert(0, os.path.dirname(os.path.abspath(__file__)))
 import inproc  # noqa: E402
 inproc.run_libs(ck, ['w14_race'])
